@@ -2,7 +2,7 @@
 
 package builtins
 
-//@ scan[C12.realos.builtins] C12 extcalls os.*,os/exec.*,os/user.*,io/ioutil.*,path/filepath.Abs,path/filepath.Glob,path/filepath.Walk,path/filepath.WalkDir,path/filepath.EvalSymlinks,syscall.*,-os.Err*,-os.init,-syscall.init,-os/exec.init,-os/user.init:
+//@ scan[C12.realos.builtins] C12 extcalls github.com/risor-io/risor/os.Current,github.com/risor-io/risor/os.LookupUser,github.com/risor-io/risor/os.LookupUid,github.com/risor-io/risor/os.LookupGroup,github.com/risor-io/risor/os.LookupGid,github.com/risor-io/risor/os.NewSimpleOS,os.*,os/exec.*,os/user.*,io/ioutil.*,path/filepath.Abs,path/filepath.Glob,path/filepath.Walk,path/filepath.WalkDir,path/filepath.EvalSymlinks,syscall.*,-os.Err*,-os.init,-syscall.init,-os/exec.init,-os/user.init:
 
 //@ scan[C12.freshctx.builtins] C12 extcalls context.Background,context.TODO:
 
@@ -59,9 +59,15 @@ package builtins
 //@ safety makeslice
 //@ assume[args.wf] ctx != nil && forall(k, 0, len(args), args[k] != nil && ref(args[k]) != nil)
 //@ func List
-//@ props C01 C03
+//@ props C01 C03 C16
 //@ safety makeslice
 //@ assume[args.wf] ctx != nil && forall(k, 0, len(args), args[k] != nil && ref(args[k]) != nil)
+// C16: list(x) is a new list: its element array is allocated by the call (or empty), never the array of an argument -
+// in-place operations on the result and on the argument do not show through each other (seed C16h returned
+// slices.Clip of the argument's items for a list argument).
+//@ invariant 1: true
+//@ invariant 2: cap(items) == 0 || fresh(items)
+//@ ensures[C16.list.builtin.fresh] typeof(result) == *object.List && ref(result) != nil ==> fresh(result) && (cap(result.(*object.List).items) == 0 || fresh(result.(*object.List).items))
 //@ func Make
 //@ props C01 C03
 //@ safety makeslice makemap makechan
